@@ -23,6 +23,7 @@ from pycoin.coins.SolutionChecker import ScriptError
 from pycoin.satoshi import errno as ERRNO
 from pycoin.ecdsa.secp256k1 import secp256k1_generator as G
 
+from props import c03x_gen as X   # multi-input transactions, P2WPKH rows of the pipeline table (generators only)
 from props import c03m as M   # model side: Lean model of pycoin's own VM vs the real VM (ops prefixed `vm_`, error codes compared)
 
 MANIFEST = {
@@ -31,7 +32,12 @@ MANIFEST = {
             "against all of script_tests.json (result and error code), tx_valid.json and tx_invalid.json; the real BitcoinVM.eval_script and "
             "Tx.check_solution are compared with it (verdict, and final stack of single-script evaluations) on a deterministic table "
             "(every opcode value x operand class x executed/dead branch x flag class, all limits at n-1/n/n+1, every push form) and on "
-            "seeded stack-typed random programs, P2SH/P2WSH/P2WPKH wrappers, real signatures and multisig. Model side (ops vm_*): a Lean "
+            "seeded stack-typed random programs, P2SH/P2WSH/P2WPKH wrappers, real signatures and multisig; the pipeline table has native and "
+            "P2SH-wrapped P2WPKH rows (witness item count, program sizes 19/21/31/33, uncompressed/hybrid keys, scriptSig shapes, witness on a "
+            "non-witness spend) under every flag class; multi-input transactions (2-5 inputs: bare, P2SH, P2WPKH, P2WSH, P2SH-P2WPKH, P2SH-P2WSH) are "
+            "validated at EVERY input index with real signatures over the digest of that index (ALL/NONE/SINGLE with and without a matching "
+            "output, ANYONECANPAY, non-standard bytes), witness amounts 0/1/2^63/21e14, CLTV/CSV against THIS input's sequence at index > 0, and "
+            "near-miss signatures (other index, other amount, output 0, other input's sequence) that consensus rejects. Model side (ops vm_*): a Lean "
             "model of pycoin's own VM (decoder, conditional counters, every handler of the generated INSTRUCTION_LOOKUP, CHECKSIG family, "
             "check_solution pipeline) is tied to the code by generated tables and exact differential correspondence (stack, alt stack, op "
             "count, errno), and proved to refine the specification (Props/C03.lean, C03_model_*): conditional counters = vfExec for every op "
@@ -43,27 +49,33 @@ MANIFEST = {
             "stack) for EVERY script, decodable or not, on stacks of items within 520 bytes (C03_model_eval_eq); check_solution = VerifyScript "
             "for every scriptSig, scriptPubKey, witness, flag set, tx context with no hypothesis but ChkWF (C03_model_verify_eq: SIGPUSHONLY, "
             "P2SH, witness v0 rules, 520-byte items, malleation rules, upgradable versions, CLEANSTACK, WITNESS_UNEXPECTED).",
-    "note": "The signature check inside the spec is a parameter answered by a sig-oracle computed by the implementation's sighash and ECDSA "
-            "(properties C04/C01); Core itself is not available offline, the spec is validated, not verified. The refinement theorems ask of "
+    "note": "The signature check inside the spec is a parameter answered by a sig-oracle: signature hash from the independent reference "
+            "harness/sighashlib.py (NOT pycoin's; the generators sign over the same reference digest, and Core's tx_valid/tx_invalid vectors pass "
+            "through it on every run), ECDSA by pycoin's verify with every answer recomputed by the Lean spec (Spec/Secp256k1.lean); "
+            "Core itself is not available offline, the spec is validated, not verified. The refinement theorems ask of "
             "the shared checker only ChkWF (the early exits of Core's CheckSig: C03_model_chk_wf_core); the older "
             "C03_model_step_eq_partial / C03_model_eval_eq_partial (CHECKSIG family excluded) are kept.",
     "technique": "Lean 4 executable specification + proof of refinement (Props/C03) + differential check implementation vs specification",
 }
 RULE = ("ops vm_* (model of pycoin's VM vs the real VM, error codes compared: harness/props/c03m.py); ops spec_eval (BitcoinVM.eval_script: verdict and final stack) and spec_verify (Tx.check_solution: verdict); deterministic table + "
-        "seeded random programs; distinct = distinct op line; trivial = script of at most one byte; error codes are reported in evidence "
+        "seeded random programs; spec_verify cases whose context carries a whole transaction and an input index (Core's tx vectors; multi-* families "
+        "of harness/props/c03x_gen.py: every index of 2-5 input transactions) are validated at that index; distinct = distinct op line; trivial = script of at most one byte; error codes are reported in evidence "
         "(error_code_agreement) and never compared for the verdict")
 ASSUMPTIONS = [
-    "sig-oracle computed by the implementation: CheckSig(sig, pubkey, scriptCode, sigversion) inside the spec is answered by harness/c03spec.py "
-    "from pycoin's signature hash (_signature_hash / _signature_for_hash_type_segwit, property C04) and pycoin's ECDSA verify (property C01); "
+    "sig-oracle: CheckSig(sig, pubkey, scriptCode, sigversion) inside the spec is answered by harness/c03spec.py from the signature hash "
+    "computed by harness/sighashlib.py (independent struct/hashlib re-statement of Core's CTransactionSignatureSerializer and BIP143, the reference "
+    "of property C04; pycoin's _signature_hash is not used, only sampled beside it for the evidence file) and pycoin's ECDSA verify (property C01); "
     "DER lax parsing and public-key parsing of the oracle are independent ports of Core / libsecp256k1 rules; every answer of the oracle is "
-    "recomputed on every run by the Lean spec (Spec/Secp256k1.lean: key parsing, lax DER, ECDSA over secp256k1) from the same signature hash, "
-    "so of the oracle only the signature hash itself remains 'computed by the implementation'",
+    "recomputed on every run by the Lean spec (Spec/Secp256k1.lean: key parsing, lax DER, ECDSA over secp256k1) from the same signature hash; "
+    "the transaction fields the reference digests are read from the Tx object pycoin parsed (property C07), the generated multi-input "
+    "transactions are serialised by txlib.ref_wire, not by pycoin",
     "the Lean spec is my rendering of Bitcoin Core's interpreter.cpp (0.13-0.15 vintage, the one pycoin's vectors come from), validated on every "
     "run by script_tests.json (1205 entries incl. error codes), tx_valid.json (120) and tx_invalid.json (80)",
     "single-script evaluation in the base sigversion is observed as SolutionChecker does it (MINIMALIF and WITNESS_PUBKEYTYPE removed from the flags)",
     "taproot and CONST_SCRIPTCODE are outside the property",
 ] + ["model side: " + a for a in M.ASSUMPTIONS]
-TRUSTED = ["lean/Pycoin/Spec/Consensus.lean as a faithful rendering of Bitcoin Core's EvalScript/VerifyScript (validated against Core's JSON vectors on every run)"]
+TRUSTED = ["lean/Pycoin/Spec/Consensus.lean as a faithful rendering of Bitcoin Core's EvalScript/VerifyScript (validated against Core's JSON vectors on every run)",
+           "harness/sighashlib.py as the consensus signature hash of the sig-oracle (validated on every run by the real signatures of Core's tx_valid.json / tx_invalid.json)"]
 
 Tx = BTC.tx
 ERRNAME = {v: k for k, v in vars(ERRNO).items() if isinstance(v, int) and k.isupper() and k != "ERROR_COUNT"}
@@ -1854,6 +1866,11 @@ def _emit_cases(cases, emit, ctx):
     S.resolve(cases)
     S.cross_check_oracle()
     ctx.extra_cov["sig_oracle_answers_recomputed_in_lean"] = {"answers": S.XCHECK_DONE[0], "true": S.XCHECK_DONE[1]}
+    ctx.extra_cov["sig_oracle_digests"] = {"computed_by_reference_sighashlib": S.REF_STATS[0], "sampled_beside_pycoin": S.REF_STATS[1] + S.REF_STATS[2],
+                                           "pycoin_same": S.REF_STATS[1], "pycoin_different_or_raised": S.REF_STATS[2], "different_examples": list(S.REF_DIFF),
+                                           "different_with_completely_decodable_script_code": S.REF_STATS[3],
+                                           "note": "informational: the verdict uses the reference digest only; agreement of pycoin's digest is property C04 (on the unchanged tree the "
+                                                   "differences are script codes with a cut-short last push: C04 known finding truncated-push-short-write; such scripts never validate)"}
     for c in cases:
         op = c.line()
         if op in CASES:
@@ -1908,6 +1925,8 @@ def gen(ctx, emit):
     cases: list = regression_cases()
     table_cases(cases, ctx.thorough)
     pipeline_table(cases, ctx.thorough)
+    X.p2wpkh_table(cases, ctx.thorough)
+    X.multi_table(cases, ctx.thorough)
     sig_table(cases, ctx.thorough)
     vm_emit = lambda op: emit(op, "vm:ms-opcount")
     ms_opcount_cases(cases, vm_emit)
@@ -1959,6 +1978,7 @@ def gen(ctx, emit):
     batch(ctx.n(22000, 480000), random_evals)
     batch(ctx.n(6000, 100000), lambda k, cs: pipeline_scenarios(rng, k, cs))
     batch(ctx.n(1500, 40000), lambda k, cs: sig_scenarios(rng, k, cs))
+    batch(ctx.n(150, 8000), lambda k, cs: X.multi_scenarios(rng, k, cs))   # k transactions, every input index of each validated
     # anchored line coverage on a sample (every k-th case, all regression cases)
     allops = list(CASES)
     step = max(1, len(allops) // ctx.n(3000, 12000))
